@@ -223,7 +223,7 @@ pub fn explore<M: Machine>(init: M, cfg: &ExploreCfg, rep: &mut Report, props: &
             sampled += 1;
         }
         frontier = nextf;
-        if seen.len() as u64 > cfg.state_cap {
+        if seen.len() as u64 > cfg.state_cap || rss_gb() > max_rss_gb() {
             cap_hit = true;
             break;
         }
@@ -239,9 +239,10 @@ pub fn explore<M: Machine>(init: M, cfg: &ExploreCfg, rep: &mut Report, props: &
     if cap_hit {
         rep.exhaustive = false;
         rep.machinery(format!(
-            "{}: state cap {} hit at depth {} (last complete level {}); result is not a verdict",
+            "{}: state cap {} (or the {} GiB memory cap) hit at depth {} (last complete level {}); no verdict beyond what was explored",
             cfg.label,
             cfg.state_cap,
+            max_rss_gb(),
             depth,
             depth.saturating_sub(1)
         ));
@@ -260,6 +261,15 @@ pub fn explore<M: Machine>(init: M, cfg: &ExploreCfg, rep: &mut Report, props: &
         "distinct_observations": all_obs.len(),
     }));
     ExploreResult { states, transitions, depth, fixpoint, cap_hit, per_level, distinct_obs: all_obs.len() as u64 }
+}
+
+/// resident set size of this process in GiB (0 when it cannot be read)
+pub fn rss_gb() -> f64 {
+    std::fs::read_to_string("/proc/self/statm").ok().and_then(|s| s.split_whitespace().nth(1).and_then(|p| p.parse::<f64>().ok())).map(|pages| pages * 4096.0 / (1u64 << 30) as f64).unwrap_or(0.0)
+}
+
+pub fn max_rss_gb() -> f64 {
+    std::env::var("VERIF_MAX_RSS_GB").ok().and_then(|s| s.parse().ok()).unwrap_or(24.0)
 }
 
 fn path_to<M: Machine>(parents: &[(u32, Option<M::Op>)], mut sid: u32, last: Option<&M::Op>) -> Vec<String> {
